@@ -252,7 +252,9 @@ impl Property for C05 {
                                 // (the watch check is one round trip per watched key, so a foreign fan-out command can also land
                                 // between the checks of two watched keys)
                                 let split_across_shards = shards > 1 && (fans_out(&oc) && (body.iter().any(|c| c.len() > 1) || watched.len() >= 2) || body.iter().any(|c| fans_out(c)));
-                                let key = if nonstring_changed && ra != R::Arr(None) { "C05/watch/non-string-key-change-not-detected" } else if weak || split_across_shards { "C05/exec/not-isolated" } else { "C05/exec/overlap-unexplained" };
+                                // (the missing isolation explains more than the WATCH finding does, so it is asked first: with a fan-out
+                                // command in flight a watched key can change and change back around its own check)
+                                let key = if weak || split_across_shards { "C05/exec/not-isolated" } else if nonstring_changed && ra != R::Arr(None) { "C05/watch/non-string-key-change-not-detected" } else { "C05/exec/overlap-unexplained" };
                                 o.viol = Some((key.into(), format!("EXEC of {:?} with {} in flight: EXEC -> {}, foreign -> {}; no placement of the foreign command before or after the whole transaction explains replies and final state{}", body.iter().map(|c| show_cmd(c)).collect::<Vec<_>>(), show_cmd(&oc), ra.show(), rb.show(), if weak { " (placing it between two queued commands does)" } else { "" })));
                                 return o;
                             };
